@@ -3,6 +3,24 @@ From Sky Require Import Num NumR G_llh M_Llh S_Llh.
 Import ListNotations.
 Open Scope R_scope.
 
+(* closes a characterising lemma after the kernel has been unfolded: robust
+   against algebraically equivalent rewrites of the source expression *)
+Ltac k_fin :=
+  num_R;
+  first
+    [ reflexivity
+    | lra
+    | (unfold Rdiv; ring)
+    | (field; fail)
+    | (repeat f_equal; first [lra | (unfold Rdiv; ring)])
+    | (unfold Rltb, Rleb, Reqb;
+       repeat (match goal with
+               | |- context [Rlt_dec ?a ?b] => destruct (Rlt_dec a b)
+               | |- context [Rle_dec ?a ?b] => destruct (Rle_dec a b)
+               | |- context [Req_EM_T ?a ?b] => destruct (Req_EM_T a b)
+               end);
+       cbn [negb andb orb]; first [reflexivity | (exfalso; lra)]) ].
+
 Section P.
   Variable erfR : R -> R.
   Notation Nm := (RNum erfR).
@@ -11,94 +29,94 @@ Section P.
   (* characterising lemmas of the regenerated kernels (real reading)   *)
 
   Lemma K_alpha opa : k_alpha Nm opa = opa - 1.
-  Proof. unfold k_alpha. num_R. reflexivity. Qed.
+  Proof. unfold k_alpha. k_fin. Qed.
   Lemma K_alpha_i ns x : k_alpha_i Nm ns x = ns * x.
-  Proof. reflexivity. Qed.
+  Proof. unfold k_alpha_i. k_fin. Qed.
   Lemma K_m_stable ai a : k_m_stable Nm ai a = Rltb a ai.
-  Proof. reflexivity. Qed.
+  Proof. unfold k_m_stable. k_fin. Qed.
   Lemma K_loglam_stable ai : k_loglam_stable Nm ai = ln (1 + ai).
-  Proof. reflexivity. Qed.
+  Proof. unfold k_loglam_stable. k_fin. Qed.
   Lemma K_tildealpha ai a opa : k_tildealpha Nm ai a opa = (ai - a) / opa.
-  Proof. reflexivity. Qed.
+  Proof. unfold k_tildealpha. k_fin. Qed.
   Lemma K_loglam_unstable a ta :
     k_loglam_unstable Nm a ta = ln (1 + a) + ta - / 2 * ta * ta.
-  Proof. unfold k_loglam_unstable. num_R. unfold Rdiv. lra. Qed.
+  Proof. unfold k_loglam_unstable. k_fin. Qed.
   Lemma K_log_lambda N N' ns s :
     k_log_lambda Nm N N' ns s = s + (N - N') * ln (1 + - ns / N).
-  Proof. reflexivity. Qed.
+  Proof. unfold k_log_lambda. k_fin. Qed.
   Lemma K_inv_opai ai : k_inv_opai Nm ai = 1 / (1 + ai).
-  Proof. unfold k_inv_opai. num_R. reflexivity. Qed.
+  Proof. unfold k_inv_opai. k_fin. Qed.
   Lemma K_nsgrad_stable x inv : k_nsgrad_stable Nm x inv = x * inv.
-  Proof. reflexivity. Qed.
+  Proof. unfold k_nsgrad_stable. k_fin. Qed.
   Lemma K_nsgrad_unstable ta x opa : k_nsgrad_unstable Nm ta x opa = (1 - ta) * x / opa.
-  Proof. unfold k_nsgrad_unstable. num_R. reflexivity. Qed.
+  Proof. unfold k_nsgrad_unstable. k_fin. Qed.
   Lemma K_grad_ns N N' ns s : k_grad_ns Nm N N' ns s = s - (N - N') / (N - ns).
-  Proof. reflexivity. Qed.
+  Proof. unfold k_grad_ns. k_fin. Qed.
   Lemma K_gradp_stable ns inv dx : k_gradp_stable Nm ns inv dx = ns * inv * dx.
-  Proof. reflexivity. Qed.
+  Proof. unfold k_gradp_stable. k_fin. Qed.
   Lemma K_gradp_unstable ns ta dx opa :
     k_gradp_unstable Nm ns ta dx opa = ns * (1 - ta) * dx / opa.
-  Proof. unfold k_gradp_unstable. num_R. reflexivity. Qed.
+  Proof. unfold k_gradp_unstable. k_fin. Qed.
   Lemma K_nsgrad2 N N' ns s :
     k_nsgrad2 Nm N N' ns s = - s - (N - N') / ((N - ns) * (N - ns)).
-  Proof. reflexivity. Qed.
+  Proof. unfold k_nsgrad2. k_fin. Qed.
   Lemma K_nsgrad2_term g : k_nsgrad2_term Nm g = g * g.
-  Proof. reflexivity. Qed.
+  Proof. unfold k_nsgrad2_term. k_fin. Qed.
   Lemma K_N_total N' nb : k_N_total Nm N' nb = N' + nb.
-  Proof. reflexivity. Qed.
+  Proof. unfold k_N_total. k_fin. Qed.
   Lemma K_Xi r N : k_Xi Nm r N = (r - 1) / N.
-  Proof. unfold k_Xi. num_R. reflexivity. Qed.
+  Proof. unfold k_Xi. k_fin. Qed.
   Lemma K_dXi d N : k_dXi Nm d N = d / N.
-  Proof. reflexivity. Qed.
+  Proof. unfold k_dXi. k_fin. Qed.
   Lemma K_nsf ns f : k_nsf Nm ns f = ns * f.
-  Proof. reflexivity. Qed.
+  Proof. unfold k_nsf. k_fin. Qed.
   Lemma K_multi_grad_ns acc g f : k_multi_grad_ns Nm acc g f = acc + g * f.
-  Proof. reflexivity. Qed.
+  Proof. unfold k_multi_grad_ns. k_fin. Qed.
   Lemma K_multi_ns_summand g ns df : k_multi_ns_summand Nm g ns df = g * ns * df.
-  Proof. reflexivity. Qed.
+  Proof. unfold k_multi_ns_summand. k_fin. Qed.
   Lemma K_multi_grad_p acc s g : k_multi_grad_p Nm acc s g = acc + (s + g).
-  Proof. reflexivity. Qed.
+  Proof. unfold k_multi_grad_p. k_fin. Qed.
   Lemma K_multi_nsgrad2_term g f : k_multi_nsgrad2_term Nm g f = g * (f * f).
-  Proof. reflexivity. Qed.
+  Proof. unfold k_multi_nsgrad2_term. k_fin. Qed.
   Lemma K_a_jk w y : k_a_jk Nm w y = w * y.
-  Proof. reflexivity. Qed.
+  Proof. unfold k_a_jk. k_fin. Qed.
   Lemma K_a_jk_grad w y : k_a_jk_grad Nm w y = w * y.
-  Proof. reflexivity. Qed.
+  Proof. unfold k_a_jk_grad. k_fin. Qed.
   Lemma K_f_j aj a : k_f_j Nm aj a = aj / a.
-  Proof. reflexivity. Qed.
+  Proof. unfold k_f_j. k_fin. Qed.
   Lemma K_f_j_grad daj a aj da : k_f_j_grad Nm daj a aj da = (daj * a - aj * da) / (a * a).
-  Proof. reflexivity. Qed.
+  Proof. unfold k_f_j_grad. k_fin. Qed.
   Lemma K_prod_ratio r1 r2 : k_prod_ratio Nm r1 r2 = r1 * r2.
-  Proof. reflexivity. Qed.
+  Proof. unfold k_prod_ratio. k_fin. Qed.
   Lemma K_prod_grad_both r1 r2 d1 d2 :
     k_prod_grad_both_b Nm (k_prod_grad_both_a Nm r1 d2) d1 r2 = r1 * d2 + d1 * r2.
-  Proof. reflexivity. Qed.
+  Proof. unfold k_prod_grad_both_b, k_prod_grad_both_a. k_fin. Qed.
   Lemma K_prod_grad_r1 d1 r2 : k_prod_grad_r1 Nm d1 r2 = d1 * r2.
-  Proof. reflexivity. Qed.
+  Proof. unfold k_prod_grad_r1. k_fin. Qed.
   Lemma K_prod_grad_r2 r1 d2 : k_prod_grad_r2 Nm r1 d2 = r1 * d2.
-  Proof. reflexivity. Qed.
+  Proof. unfold k_prod_grad_r2. k_fin. Qed.
   Lemma K_sob_mask b : k_sob_mask Nm b = Rltb 0 b.
-  Proof. unfold k_sob_mask. num_R. reflexivity. Qed.
+  Proof. unfold k_sob_mask. k_fin. Qed.
   Lemma K_sob_ratio s b : k_sob_ratio Nm s b = s / b.
-  Proof. reflexivity. Qed.
+  Proof. unfold k_sob_ratio. k_fin. Qed.
   Lemma K_sob_grad_sig ds b : k_sob_grad_sig Nm ds b = ds / b.
-  Proof. reflexivity. Qed.
+  Proof. unfold k_sob_grad_sig. k_fin. Qed.
   Lemma K_sob_grad_both ds b db s : k_sob_grad_both Nm ds b db s = (ds * b - db * s) / (b * b).
-  Proof. reflexivity. Qed.
+  Proof. unfold k_sob_grad_both. k_fin. Qed.
   Lemma K_sob_grad_bkg s b db : k_sob_grad_bkg Nm s b db = - s / (b * b) * db.
-  Proof. reflexivity. Qed.
+  Proof. unfold k_sob_grad_bkg. k_fin. Qed.
   Lemma K_sw_term acc r ak : k_sw_term Nm acc r ak = acc + r * ak.
-  Proof. reflexivity. Qed.
+  Proof. unfold k_sw_term. k_fin. Qed.
   Lemma K_sw_norm r A : k_sw_norm Nm r A = r / A.
-  Proof. reflexivity. Qed.
+  Proof. unfold k_sw_norm. k_fin. Qed.
   Lemma K_sw_grad_init Ri dA : k_sw_grad_init Nm Ri dA = - Ri * dA.
-  Proof. reflexivity. Qed.
+  Proof. unfold k_sw_grad_init. k_fin. Qed.
   Lemma K_sw_grad_term_a acc dak r : k_sw_grad_term_a Nm acc dak r = acc + dak * r.
-  Proof. reflexivity. Qed.
+  Proof. unfold k_sw_grad_term_a. k_fin. Qed.
   Lemma K_sw_grad_term_b acc ak dr : k_sw_grad_term_b Nm acc ak dr = acc + ak * dr.
-  Proof. reflexivity. Qed.
+  Proof. unfold k_sw_grad_term_b. k_fin. Qed.
   Lemma K_sw_grad_add g s : k_sw_grad_add Nm g s = g + s.
-  Proof. reflexivity. Qed.
+  Proof. unfold k_sw_grad_add. k_fin. Qed.
   Lemma K_sw_grad_norm g A : k_sw_grad_norm Nm g A = g / A.
-  Proof. reflexivity. Qed.
+  Proof. unfold k_sw_grad_norm. k_fin. Qed.
 End P.
